@@ -11,6 +11,7 @@ message sizes, faults, timer firings, Close).
 import KafkaVerif.Lemmas.WriterProgress
 import KafkaVerif.Lemmas.WriterQueued
 import KafkaVerif.Lemmas.WriterQuiesce
+import KafkaVerif.Lemmas.WriterAge
 import KafkaVerif.Gen.WriterConsts
 
 namespace KV.C08
@@ -366,6 +367,69 @@ theorem everything_completed_when_close_returns (cfg : Cfg) (hmax : 1 ≤ cfg.ma
     rw [this] at hmem
     cases hmem
 
+/-! ### BatchTimeout is measured from the creation of the batch (timed model: `tick`, `openedAt`, `linger`) -/
+
+/-- **attached_batch_age_bounded** — in every reachable state of a timed run, a batch that is still attached and whose
+linger timer has not fired is at most `linger` (= BatchTimeout + the slack granted to the timer goroutine) old:
+`now ≤ openedAt + linger`.  The bound refers to the creation of the batch, not to the last append. -/
+theorem attached_batch_age_bounded (cfg : Cfg) (s : State) (hr : Reachable cfg s) (pw : Nat) (P : PW) (hP : s.pws pw = some P)
+    (b : Nat) (hc : P.curr = some b) (B : Batch) (hB : s.batches b = some B) :
+    B.timerFired = true ∨ cfg.linger = 0 ∨ s.now ≤ s.openedAt b + cfg.linger :=
+  invAge cfg s hr pw P hP b hc B hB
+
+/-- **add_only_to_young_batch** — a message is appended only to a batch that is younger than `linger` (or whose timer
+has just fired and is about to detach it): a steady trickle of messages cannot keep a batch open. -/
+theorem add_only_to_young_batch (cfg : Cfg) (s s' : State) (hr : Reachable cfg s) (pw b c i size : Nat)
+    (hs : step cfg s (.add pw b c i size) = some s') :
+    ∃ B, s.batches b = some B ∧ (B.timerFired = true ∨ cfg.linger = 0 ∨ s.now ≤ s.openedAt b + cfg.linger) := by
+  have hA := invAge cfg s hr
+  simp only [step, stepAdd] at hs
+  repeat' split at hs
+  all_goals (first | (cases hs; done) | skip)
+  rename_i _ P hP _ B hB _ C hC hg
+  exact ⟨B, hB, hA pw P hP b hg.2.1 B hB⟩
+
+/-- **append_does_not_rearm** — appending a message moves neither the clock nor the opening time of any batch: the
+deadline `openedAt + BatchTimeout` of a batch is fixed when it is created. -/
+theorem append_does_not_rearm (cfg : Cfg) (s s' : State) (pw b c i size : Nat)
+    (hs : step cfg s (.add pw b c i size) = some s') : s'.openedAt = s.openedAt ∧ s'.now = s.now := by
+  simp only [step, stepAdd] at hs
+  repeat' split at hs
+  all_goals (first | (cases hs; done) | skip)
+  cases hs
+  exact ⟨rfl, rfl⟩
+
+/-- **opened_at_creation** — the opening time of a batch is the clock value at its creation. -/
+theorem opened_at_creation (cfg : Cfg) (s s' : State) (pw b : Nat) (hs : step cfg s (.newBatch pw b) = some s') :
+    s'.openedAt b = s.now := by
+  simp only [step] at hs
+  repeat' split at hs
+  all_goals (first | (cases hs; done) | skip)
+  cases hs
+  simp
+
+/-- **timer_armed_only_at_creation** — in the source as it stands the linger timer of a batch is armed in exactly one
+place, `newWriteBatch`; nothing re-arms it (regenerated on every run by go/extract/writer). -/
+theorem timer_armed_only_at_creation : Gen.timerArmSites = ["newWriteBatch"] := by decide
+
+/-! ### options left unset: the limits in force are the defaults of the accessors -/
+
+/-- **defaults_match_source** — the model's `effBatchSize / effBatchBytes / effMaxAttempts` (applied by the oracle to
+the options as configured) are `(*Writer).batchSize / batchBytes / maxAttempts` as they stand in writer.go; an unset
+option means 100 messages / 1048576 bytes / 10 attempts.  (`validation_matches_source`: the up-front size check compares
+with `batchBytes()`, the limit in force, not with the raw field.) -/
+theorem defaults_match_source (n : Nat) :
+    Gen.effBatchSize n = Writer.effBatchSize n ∧ Gen.effBatchBytes n = Writer.effBatchBytes n ∧
+    Gen.effMaxAttempts n = Writer.effMaxAttempts n := by
+  unfold Gen.effBatchSize Gen.effBatchBytes Gen.effMaxAttempts Writer.effBatchSize Writer.effBatchBytes Writer.effMaxAttempts
+  by_cases h : n = 0
+  · subst h; simp
+  · have : n > 0 := Nat.pos_of_ne_zero h
+    simp [h, this]
+
+theorem default_limits : Writer.effBatchSize 0 = 100 ∧ Writer.effBatchBytes 0 = 1048576 ∧ Writer.effMaxAttempts 0 = 10 := by
+  decide
+
 /-! ### the decision logic of the model is the one in the source (regenerated on every run by go/extract/writer) -/
 
 /-- every piece of decision logic the theorems below are stated over could be read from the source -/
@@ -433,5 +497,15 @@ example : ((run { exCfg with async := false } State.init
       .produce 1 ("t", 0) [(1, 0)] .acked, .attemptDone 1 1 0 0, .complete 1 1 0 ]).map
         (fun s => ((s.log ("t", 0)).map (·.msg), (s.calls 1).map (·.result)))) =
     some ([(1, 0)], some (some .ctx)) := by decide
+
+/-- timed run (linger = 100): the batch is opened at clock 10; the clock may reach 110 while the batch is attached, not
+111 — unless its timer has fired (then it is being detached) -/
+def exTimed : List Event :=
+  [ .enter true, .begin_ 1 [{ size := 50, topic := "" }], .assign 1 0 ("t", 0), .batch 1, .newPW 1 1 ("t", 0),
+    .tick 10, .newBatch 1 1, .add 1 1 1 0 50, .batched 1, .ret 1 .async, .tick 110 ]
+
+example : (run { exCfg with linger := 100 } State.init exTimed).isSome = true := by decide
+example : (run { exCfg with linger := 100 } State.init (exTimed ++ [.tick 111])).isSome = false := by decide
+example : (run { exCfg with linger := 100 } State.init (exTimed ++ [.timerFire 1 1 true, .tick 500])).isSome = true := by decide
 
 end KV.C08
